@@ -26,7 +26,8 @@ TECHNIQUE = ('fault injection through a plugin library: each formula cell '
              'in turn x fault kind (unknown function, raise on call k, raise '
              'after a captured operator error) x Hypothesis-generated '
              'follow-up history x {plain, iterative}; observation-driven '
-             'oracle against a fresh model')
+             'oracle against a fresh model'
+             "; fault kinds ending in python's usual exception types, unknown functions named like python builtins / module internals; enumerated scenarios: precedent that can not be loaded, trim_graph with a failing cell to freeze, fault inside a cycle")
 LEVEL_TEXT = ('Fault enumeration: fault sites are enumerated (every formula '
               'cell of each sampled workbook, incl. range members and CSE '
               'arrays, plus a fixed circular system), fault schedules are '
